@@ -1,6 +1,9 @@
 // hutil.hpp — helpers shared by the correspondence harnesses: case-file parsing, hex coding.
 #pragma once
 #include <string>
+#include <sys/socket.h>
+#include <netinet/in.h>
+#include <unistd.h>
 #include <vector>
 #include <sstream>
 #include <iostream>
@@ -8,6 +11,32 @@
 #include <cstdio>
 
 namespace hu {
+// a TCP port nobody is listening on right now (both address families), found by trying to bind it; the library's
+// accept_connections() uses the throwing bind(), so the harnesses look for a free port first
+inline unsigned short free_port(unsigned start)
+{
+  for (unsigned p = 20000u + start % 30000u, tries = 0; tries < 20000; ++tries, p = (p >= 60000u ? 20000u : p + 1u))
+  {
+    bool ok = true;
+    for (int fam : { AF_INET6, AF_INET })
+    {
+      int fd = ::socket(fam, SOCK_STREAM, 0);
+      if (fd < 0) continue;
+      int one = 1; ::setsockopt(fd, SOL_SOCKET, SO_REUSEADDR, &one, sizeof one);
+      int rc;
+      if (fam == AF_INET6)
+      { sockaddr_in6 a{}; a.sin6_family = AF_INET6; a.sin6_port = htons(static_cast<unsigned short>(p)); a.sin6_addr = in6addr_any; rc = ::bind(fd, reinterpret_cast<sockaddr*>(&a), sizeof a); }
+      else
+      { sockaddr_in a{}; a.sin_family = AF_INET; a.sin_port = htons(static_cast<unsigned short>(p)); a.sin_addr.s_addr = htonl(INADDR_ANY); rc = ::bind(fd, reinterpret_cast<sockaddr*>(&a), sizeof a); }
+      if (rc == 0) rc = ::listen(fd, 1);
+      ::close(fd);
+      if (rc != 0) { ok = false; break; }
+    }
+    if (ok) return static_cast<unsigned short>(p);
+  }
+  return 0;
+}
+
 inline int hexval(char c)
 { return (c >= '0' && c <= '9') ? c - '0' : (c >= 'a' && c <= 'f') ? c - 'a' + 10 : c - 'A' + 10; }
 
